@@ -35,6 +35,13 @@ type B5 struct {
 	S string
 }
 
+// B7 has two pointer fields that may share one object with a field the Go type does not have.
+type B7 struct {
+	Name string
+	P    *zoo.Inner
+	Q    *zoo.Inner
+}
+
 // B6 embeds a struct: the wire may carry (flat, Java-style) fields named like the promoted fields.
 type B6 struct {
 	zoo.Base
@@ -74,6 +81,8 @@ func permutations(n int) [][]int {
 	return res
 }
 
+var innerClass = &rh.Class{Name: "Inner", Fields: []string{"a", "s"}}
+
 var unknownClass = &rh.Class{Name: "com.example.Unknown", Fields: []string{"q"}}
 
 // extraValues are the wire kinds an unknown field may carry.
@@ -92,6 +101,7 @@ func extraValues(self *rh.Value) []struct {
 		{"map", &rh.Value{K: rh.Map, Elems: []*rh.Value{rh.StringV("k"), rh.IntV(1)}}},
 		{"unknown-class object", &rh.Value{K: rh.Object, Class: unknownClass, Elems: []*rh.Value{rh.IntV(5)}}},
 		{"ref to the object itself", self},
+		{"registered-class object", &rh.Value{K: rh.Object, Class: innerClass, Elems: []*rh.Value{rh.IntV(8), rh.StringV("reg")}}},
 	}
 }
 
@@ -207,6 +217,53 @@ func init() {
 					c.Cover("defs:" + tname(tv))
 				}})
 			}
+			// an unknown field holds an instance of a registered class and a LATER known field refers back to it
+			us = append(us, core.Unit{Name: "unknown-field-target-of-later-ref", Cost: 5, Run: func(c *core.Ctx) {
+				type holder = B7
+				tm, nm, _ := Maps(&B7{P: &zoo.Inner{}, Q: &zoo.Inner{}})
+				for _, order := range [][]string{{"zzBackup", "name", "p"}, {"name", "zzBackup", "p"}, {"zzBackup", "p", "q", "name"}, {"q", "zzBackup", "name", "p"}} {
+					for _, long := range []bool{false, true} {
+						if !c.Begin() {
+							continue
+						}
+						c.NontrivialN(1)
+						shared := &rh.Value{K: rh.Object, Class: innerClass, Elems: []*rh.Value{rh.IntV(8), rh.StringV("reg")}}
+						cls := &rh.Class{Name: nm["B7"], Fields: order}
+						obj := &rh.Value{K: rh.Object, Class: cls}
+						want := &B7{Name: "n"}
+						sharedGo := &zoo.Inner{A: 8, S: "reg"}
+						first := true
+						for _, f := range order {
+							switch f {
+							case "zzBackup":
+								obj.Elems = append(obj.Elems, shared)
+							case "name":
+								obj.Elems = append(obj.Elems, rh.StringV("n"))
+							case "p":
+								obj.Elems = append(obj.Elems, shared)
+								want.P = sharedGo
+							case "q":
+								obj.Elems = append(obj.Elems, shared)
+								want.Q = sharedGo
+							}
+							_ = first
+						}
+						pick := fixedPick{map[string]int{}}
+						if long {
+							pick.m["object-form"] = 1
+						}
+						e := rh.NewEncoder(pick)
+						e.Top(obj)
+						desc := fmt.Sprintf("B7 definition %v (long form=%v): the unknown field zzBackup holds the Inner instance that p/q refer back to", order, long)
+						if _, err := rh.ParseOne(e.Out); err != nil {
+							c.Report(&core.Violation{Stage: "selfcheck", Kind: "harness", Shape: "R1", Message: err.Error(), Case: desc})
+							continue
+						}
+						c.Outcome(decodeAgainst(c, e.Out, want, tm, nm, desc, "unknown-field-target-of-later-ref", nil))
+					}
+				}
+				c.Cover("unknown-field-target")
+			}})
 			// part 2: class positions
 			for _, hoist := range []bool{false, true} {
 				hoist := hoist
@@ -291,7 +348,7 @@ func init() {
 			return us
 		},
 		RequireCover: func(string) []string {
-			return []string{"defs:B1", "defs:B5", "defs:B6", "positions:hoist=true", "positions:hoist=false", "extra:unknown-class object", "extra:ref to the object itself", "extra:map", "extra:null"}
+			return []string{"defs:B1", "defs:B5", "defs:B6", "positions:hoist=true", "positions:hoist=false", "extra:unknown-class object", "extra:ref to the object itself", "extra:map", "extra:null", "extra:registered-class object", "unknown-field-target"}
 		},
 	})
 }
